@@ -11,6 +11,9 @@ add_protein (`addSeq hs err`: ANY list of contributed hashes, then success or AN
 clear, merge, inflate, enable/disable abundance, downsample_scaled / downsample_max_hash (on a clone
 and by value), the serde round trip, `kmerminhash_set_abundances`; `Pair`/`PCmd` add the `From`
 conversions between the two types.
+`Sk` / `RCmd` / `regsStep` / `regsRun` : a register file of any number of live sketches of either type;
+copies (`Clone`, serde, `From`) land in another register next to their source (`RegsOk`: every
+register's cache is empty or the digest of that register's own contents).
 `digest k mins = md5 (preimage k mins)` with `Md5.md5` the RFC 1321 function of `Model/Md5.lean`. -/
 namespace Sourmash.C13
 open MH Md5Cache
@@ -345,6 +348,53 @@ theorem merge_num_tree (p : TPair) (cs : List Cmd) (h0 : TOk p.main ∧ TOk p.ot
   have := (Tree.md5sum_spec h.1).1
   rw [this, hr]; unfold Tree.digest; rw [hk]
 
+/-- **T-cache_inv** over a register file: ANY number of live sketches of either type; a copy
+    (`Clone`, the serde round trip, a `From` conversion by value of a clone or by reference) lands in
+    another register while its source stays alive, copies of copies included; every register can be
+    mutated (every entry point of `Op`), copied and observed at any time in any order.  Every
+    register's cache is empty or the digest of THAT register's own current (ksize, hashes). -/
+theorem cache_inv_regs (rs : List Sk) (cs : List RCmd) (h0 : RegsOk rs) : RegsOk (regsRun rs cs) :=
+  regsRun_ok cs h0
+
+/-- **T-md5_current** over a register file: after any history, `md5sum` of every live sketch is the
+    digest of its own current contents — whatever was copied from or to it before, whether a digest
+    existed when the copy was taken, and whichever of source and copy is asked first — and asking
+    changes neither the hashes nor the ksize. -/
+theorem md5_current_regs (rs : List Sk) (cs : List RCmd) (h0 : RegsOk rs) (n : Nat) (s : Sk)
+    (hn : (regsRun rs cs)[n]? = some s) :
+    s.md5sum.1 = Md5.digest s.ksize s.mins ∧ s.md5sum.2.mins = s.mins ∧ s.md5sum.2.ksize = s.ksize := by
+  have h := Sk.md5sum_spec ((cache_inv_regs rs cs h0).get hn)
+  exact ⟨h.1, h.2.2.1, h.2.2.2⟩
+
+/-- **T-copy_independent**: after any history, take a copy of register `i` into register `j`
+    (`Clone` with both kept alive; no digest need exist yet), then run any op on the source `i`
+    (operand `k ≠ j`): the copy `j` is exactly what it was (same hashes as the source had when it
+    was copied), and afterwards EVERY register — source and copy, in whichever order they are asked
+    — reports the digest of its own contents.  Symmetrically for an op on the copy. -/
+theorem copy_independent (rs : List Sk) (cs : List RCmd) (h0 : RegsOk rs) (i j k : Nat) (op : Op)
+    (hij : i ≠ j) (hkj : k ≠ j) (hki : k ≠ i) :
+    let q := regsRun rs cs
+    let q1 := (regsStep q (.dup i j)).1
+    let onSrc := (regsStep q1 (.on i k op)).1
+    let onCopy := (regsStep q1 (.on j k op)).1
+    onSrc[j]? = q1[j]? ∧ onCopy[i]? = q1[i]?
+    ∧ (∀ s : Sk, q[i]? = some s → j < q.length → ∃ c : Sk, q1[j]? = some c ∧ c.mins = s.mins ∧ c.ksize = s.ksize)
+    ∧ (∀ (n : Nat) (s : Sk), onSrc[n]? = some s → s.md5sum.1 = Md5.digest s.ksize s.mins)
+    ∧ (∀ (n : Nat) (s : Sk), onCopy[n]? = some s → s.md5sum.1 = Md5.digest s.ksize s.mins) := by
+  intro q q1 onSrc onCopy
+  have hq : RegsOk q := cache_inv_regs rs cs h0
+  have hq1 : RegsOk q1 := regsStep_ok _ hq
+  refine ⟨regsStep_frame i k j op (Ne.symm hij) (Ne.symm hkj), regsStep_frame j k i op hij (Ne.symm hki), ?_,
+    fun n s hn => (Sk.md5sum_spec ((regsStep_ok (.on i k op) hq1).get hn)).1,
+    fun n s hn => (Sk.md5sum_spec ((regsStep_ok (.on j k op) hq1).get hn)).1⟩
+  intro s hs hj
+  refine ⟨s.clone.1, ?_, (Sk.clone_same s).1, (Sk.clone_same s).2⟩
+  show (regsStep q (.dup i j)).1[j]? = some s.clone.1
+  have hne : (i == j) = false := by simpa using hij
+  have hlen : ¬ q.length ≤ j := Nat.not_le.mpr hj
+  simp only [regsStep, hne, hs, Bool.false_or, decide_eq_true_eq, hlen, if_false]
+  rw [List.getElem?_set_self (by rw [List.length_set]; exact hj)]
+
 /-! non-vacuity of the hypotheses: the starting pair used by the driver satisfies them -/
 /-- T-merge_num: a receiver of num 3, a source of num 10, compatible -/
 example : (VOk (Vec.new 3 0 true) ∧ VOk (Vec.new 10 0 false))
@@ -354,6 +404,18 @@ example : VOk (Vec.new 3 0 true) ∧ VOk (Vec.new 3 0 false) := ⟨VOk.new .., V
 example : TOk (Tree.new 0 5 true) ∧ TOk (Tree.new 0 5 false) := ⟨TOk.new .., TOk.new ..⟩
 example : Pair.Ok (.v ⟨Vec.new 3 0 true, Vec.new 3 0 false 31⟩) := ⟨VOk.new .., VOk.new ..⟩
 example : Pair.Ok (.t ⟨Tree.new 0 5 true, Tree.new 0 5 false 31⟩) := ⟨TOk.new .., TOk.new ..⟩
+/-- register file used by the driver: new sketches of both types -/
+example : RegsOk [.v (Vec.new 3 0 true), .t (Tree.new 0 5 false 31), .v (Vec.new 0 5 false)] := by
+  intro s hs
+  simp only [List.mem_cons, List.not_mem_nil, or_false] at hs
+  rcases hs with h | h | h <;> subst h
+  · exact VOk.new ..
+  · exact TOk.new ..
+  · exact VOk.new ..
+/-- hypotheses of T-copy_independent: the copied register exists and the target is in range -/
+example : let q := regsRun [Sk.v (Vec.new 3 0 true), .v (Vec.new 3 0 true), .v (Vec.new 3 0 true)] []
+    (∃ s, q[0]? = some s) ∧ 1 < q.length ∧ (0 : Nat) ≠ 1 ∧ (2 : Nat) ≠ 1 ∧ (2 : Nat) ≠ 0 :=
+  ⟨⟨_, rfl⟩, by decide, by decide, by decide, by decide⟩
 /-- hypotheses of T-eq_ksize: same hashes, different ksizes -/
 example : let q := (⟨Vec.new 0 5 false 21, Vec.new 0 5 false 31⟩ : VPair).run []
     q.main.mins = q.other.mins ∧ q.main.ksize ≠ q.other.ksize := by decide
